@@ -62,6 +62,23 @@ package state
 //@   ensures[C09] @value self.data.Balance == amount
 //@   nopanic[C09]
 
+// A credit or debit stores a freshly allocated integer holding old balance +/- amount: the
+// account's balance never shares memory with the caller's amount (the EVM recycles operand
+// integers through its pool, so a shared integer would let later instructions rewrite the
+// balance without a journal entry), and the caller's amount is left as it was (C05).
+//@ func stateObject.AddBalance
+//@   requires c != nil && c.db != nil && c.data.Balance != nil && amount != nil && c.data.Balance != amount
+//@   ensures[C05] @value big(c.data.Balance) == old(big(c.data.Balance)) + old(big(amount))
+//@   ensures[C05] @fresh old(big(amount)) != 0 ==> fresh(c.data.Balance)
+//@   ensures[C05] @argkept big(amount) == old(big(amount))
+//@   nopanic[C05]
+//@ func stateObject.SubBalance
+//@   requires c != nil && c.db != nil && c.data.Balance != nil && amount != nil && c.data.Balance != amount
+//@   ensures[C05] @value big(c.data.Balance) == old(big(c.data.Balance)) - old(big(amount))
+//@   ensures[C05] @fresh old(big(amount)) != 0 ==> fresh(c.data.Balance)
+//@   ensures[C05] @argkept big(amount) == old(big(amount))
+//@   nopanic[C05]
+
 //@ func stateObject.touch
 //@   requires c != nil && c.db != nil
 //@   ensures[C09] @journal len(c.db.journal) == old(len(c.db.journal)) + 1 && typeis(top(c.db.journal), "state.touchChange")
